@@ -211,6 +211,18 @@ def _monitor(ex, method, consume):
             break
     if method == 'HEAD' and ex.body:
         ex.err('head-has-body', '%d bytes' % len(ex.body))
+    # framing: a declared Content-Length is the number of body BYTES (a real server cuts or pads the body to it)
+    if consume == 'drain' and ex.iter_done and method != 'HEAD' and type(headers) is list and isinstance(status, str) \
+            and status[:3] not in ('204', '304') and not status.startswith('1'):
+        cls = [v for k, v in headers if type(k) is str and k.lower() == 'content-length']
+        if cls and all(type(c) is bytes for c in ex.chunks):
+            try:
+                declared = int(cls[-1])
+            except (TypeError, ValueError):
+                ex.err('content-length-not-a-number', repr(cls[-1])[:40])
+            else:
+                if declared != len(ex.body):
+                    ex.err('content-length-mismatch', 'Content-Length %d, %d body bytes' % (declared, len(ex.body)))
 
 
 _COOKIE_RE = re.compile(r'^\s*([^=;\s]+)\s*=\s*("[^"]*"|[^;]*)')
